@@ -1120,8 +1120,8 @@ MUTANTS = [
       "            local_shape=self.local_shape,\n"), "C19-L2"),
     ("addition concatenates data in the opposite operand order",
      ("skfem/assembly/form/coo_data.py",
-      "            data=np.hstack((self.data, other.data)),",
-      "            data=np.hstack((other.data, self.data)),"), "C19-L2"),
+      "            data=np.concatenate((self.data, other.data)),",
+      "            data=np.concatenate((other.data, self.data)),"), "C19-L2"),
     ("Dofs numbers the facet block in C order (split_indices still F)",
      (_D, "            (element.facet_dofs, topo.nfacets),\n"
       "                order='F') + offset",
